@@ -129,8 +129,29 @@ def sel_flags(inv):
 
 
 def command_line(inv, k=0):
-    return ['test', '-C', 'b', '--no-rebuild', '--num-processes', str(inv['jobs']), '--repeat', str(inv['repeat']),
+    # with inv['env'] the number of jobs comes from MESON_TESTTHREADS / MESON_NUM_PROCESSES (no -j)
+    nj = [] if inv.get('env') else ['--num-processes', str(inv['jobs'])]
+    return ['test', '-C', 'b', '--no-rebuild'] + nj + ['--repeat', str(inv['repeat']),
             '--maxfail', str(inv['maxfail']), '-t', '0.3', '--logbase', 'L%d' % k] + sel_flags(inv)
+
+
+def shown_command(inv):
+    return ' '.join(['C12_LOG=<log>'] + ['%s=%s' % kv for kv in sorted((inv.get('env') or {}).items())] + ['meson'] + command_line(inv))
+
+
+def env_jobs(env):
+    """documented effect of MESON_TESTTHREADS / MESON_NUM_PROCESSES (the latter prevails): a positive integer is the
+    number of jobs, 0 means the number of CPUs, anything else one job"""
+    n = 0
+    for k in ('MESON_TESTTHREADS', 'MESON_NUM_PROCESSES'):
+        if k in env:
+            try:
+                n = int(env[k])
+                if n < 0:
+                    n = 1
+            except ValueError:
+                n = 1
+    return n if n > 0 else (os.cpu_count() or 1)
 
 
 def run_invocation(d, k, inv, with_list):
@@ -138,7 +159,7 @@ def run_invocation(d, k, inv, with_list):
     open(log, 'w').close()
     args = command_line(inv, k)
     try:
-        r = meson_cli(args, cwd=d, env={'C12_LOG': log}, timeout=8 if inv.get('probe') else 120)
+        r = meson_cli(args, cwd=d, env=dict(inv.get('env') or {}, C12_LOG=log), timeout=30 if inv.get('probe') else 120)
         rc, out = r.returncode, r.stdout + (r.stderr if inv.get('probe') else '')
     except subprocess.TimeoutExpired:
         rc, out = 'hang', ''
@@ -206,13 +227,18 @@ def run_cli(ctx, built, thorough, only=None):
         if only is None and pi == 0:
             invs[0] = {'jobs': 3, 'repeat': 1, 'maxfail': 0, 'include': [], 'exclude_suites': [], 'exclude': [], 'args': [], 'slice': ''}
         if only is None and pi == 0:
-            # probes for the recorded finding: a non-positive --num-processes
+            # the option layer: a non-positive --num-processes must be refused at option parsing;
+            # MESON_TESTTHREADS / MESON_NUM_PROCESSES of any content must still let the tests run
             base = {'repeat': 1, 'maxfail': 0, 'include': [], 'exclude_suites': [], 'exclude': [], 'args': [], 'slice': ''}
-            invs.append(dict(base, jobs=0, probe='np0'))
-            invs.append(dict(base, jobs=-1, probe='npneg'))
+            for nj in (0, -1, -17):
+                invs.append(dict(base, jobs=nj, probe='reject'))
+            for env in ({'MESON_TESTTHREADS': '0'}, {'MESON_NUM_PROCESSES': '-3'}, {'MESON_TESTTHREADS': 'junk'},
+                        {'MESON_TESTTHREADS': '2', 'MESON_NUM_PROCESSES': '0'}, {'MESON_TESTTHREADS': '-1', 'MESON_NUM_PROCESSES': '2'}):
+                invs.append(dict(base, jobs=env_jobs(env), env=env))
         for k, inv in enumerate(invs):
             jobs.append((pi, k, inv, True))
     obs = pmap(lambda j: run_invocation(dirs[j[0]], j[1], j[2], j[3]), jobs)
+    probe_reported = set()
 
     # slice partition through the CLI (--list --slice i/n for all i)
     slice_jobs = []
@@ -259,17 +285,23 @@ def run_cli(ctx, built, thorough, only=None):
         proj, ser = projs[pi], order[pi]
         byname = {t['name']: t for t in proj['tests']}
         rep_base = {'cli': {'project': proj, 'invocation': inv}, 'meson.build': meson_build(proj),
-                    'command_line': 'C12_LOG=<log> meson ' + ' '.join(command_line(inv))}
+                    'command_line': shown_command(inv)}
         ident = 'C12:cli:' + json.dumps({'p': meson_build(proj), 'i': inv}, sort_keys=True)
         viol = lambda what, extra=None: ctx.violation(ident, what, dict(rep_base, failure=what, observed=extra))
         ctx.count(('cli', ident))
-        if inv.get('probe'):
-            if inv['probe'] == 'np0' and ob['rc'] == 'hang' and not ob['events']:
-                ctx.violation('C12:num-processes-0', '`meson test --num-processes 0` starts no test and never ends (no test started within 8 s): '
-                              'asyncio.Semaphore(0) is never released', dict(rep_base, failure='hang, no test started'))
-            if inv['probe'] == 'npneg' and ob['rc'] == 2 and 'Unhandled python exception' in ob['stdout']:
-                ctx.violation('C12:num-processes-negative', '`meson test --num-processes -1` dies with "Unhandled python exception" '
-                              '(ValueError from asyncio.Semaphore) instead of running or rejecting the option', dict(rep_base, failure='exit 2, unhandled exception'))
+        if inv.get('probe') == 'reject':
+            # judge: refused at option parsing = argparse usage error (exit status 2), nothing started, prompt return
+            out = ob['stdout'] if isinstance(ob['stdout'], str) else ''
+            ok = ob['rc'] == 2 and not ob['events'] and 'usage:' in out and 'Unhandled python exception' not in out
+            pid = 'C12:num-processes-0' if inv['jobs'] == 0 else 'C12:num-processes-negative'
+            if not ok and pid not in probe_reported:
+                probe_reported.add(pid)
+                how = ('does not return within 30 s and starts no test' if ob['rc'] == 'hang'
+                       else 'dies with "Unhandled python exception" (exit status 2)' if 'Unhandled python exception' in out
+                       else 'exit status %r, %d test events' % (ob['rc'], len(ob['events'])))
+                ctx.violation(pid, '`meson test --num-processes %d` %s; a non-positive number of jobs must be rejected at option parsing '
+                              '(usage error, exit status 2, nothing started)' % (inv['jobs'], how),
+                              dict(rep_base, failure=how, output_tail=out[-400:]))
             continue
         if ob['rc'] == 'hang':
             viol('meson test did not finish within 120 s')
@@ -465,7 +497,7 @@ def replay(ctx, cli):
     n = run_cli(ctx, built, False, only=cli)
     print('meson.build:\n' + meson_build(cli['project']))
     print('options:', json.dumps(cli['invocation']))
-    print('command line: C12_LOG=<log> meson ' + ' '.join(command_line(cli['invocation'])))
+    print('command line: ' + shown_command(cli['invocation']))
     print('property clauses failing on the implementation:')
     for v in ctx.violations:
         print('  -', v['what'][:600])
